@@ -426,4 +426,171 @@ theorem findPiece_seqLowest (s : State) (p : Nat) :
   simp only [Except.ok.injEq, Prod.mk.injEq] at he
   rw [← he.2]; rfl
 
+/-! ### progress: outcome lists are never empty -/
+
+theorem exists_min_key (key : Nat → Int) : ∀ (c : List Nat), c ≠ [] → ∃ i ∈ c, ∀ j ∈ c, key i ≤ key j
+  | [], h => absurd rfl h
+  | [x], _ => ⟨x, by simp, by intro j hj; simp at hj; subst hj; exact Int.le_refl _⟩
+  | x :: y :: rest, _ => by
+    obtain ⟨m, hm, hmin⟩ := exists_min_key key (y :: rest) (by simp)
+    by_cases hx : key x ≤ key m
+    · refine ⟨x, by simp, ?_⟩
+      intro j hj
+      simp only [List.mem_cons] at hj
+      rcases hj with rfl | hj
+      · exact Int.le_refl _
+      · exact Int.le_trans hx (hmin j (by simpa using hj))
+    · refine ⟨m, by simp only [List.mem_cons] at hm ⊢; exact Or.inr hm, ?_⟩
+      intro j hj
+      simp only [List.mem_cons] at hj
+      rcases hj with rfl | hj
+      · omega
+      · exact hmin j (by simpa using hj)
+
+theorem argmins_ne_nil (key : Nat → Int) (c : List Nat) (h : c ≠ []) : argmins key c ≠ [] := by
+  obtain ⟨i, hi, hmin⟩ := exists_min_key key c h
+  intro he
+  have : i ∈ argmins key c := by
+    unfold argmins
+    rw [List.mem_filter]
+    exact ⟨hi, by simpa [List.all_eq_true] using hmin⟩
+  rw [he] at this; cases this
+
+/-- A list has an element maximal for a `Nat`-valued measure. -/
+theorem exists_max_measure {α : Type} (f : α → Nat) : ∀ (c : List α), c ≠ [] → ∃ x ∈ c, ∀ y ∈ c, f y ≤ f x
+  | [], h => absurd rfl h
+  | [x], _ => ⟨x, by simp, by intro j hj; simp at hj; subst hj; exact Nat.le_refl _⟩
+  | x :: y :: rest, _ => by
+    obtain ⟨m, hm, hmax⟩ := exists_max_measure f (y :: rest) (by simp)
+    by_cases hx : f m ≤ f x
+    · refine ⟨x, by simp, ?_⟩
+      intro j hj
+      simp only [List.mem_cons] at hj
+      rcases hj with rfl | hj
+      · exact Nat.le_refl _
+      · exact Nat.le_trans (hmax j (by simpa using hj)) hx
+    · refine ⟨m, by simp only [List.mem_cons] at hm ⊢; exact Or.inr hm, ?_⟩
+      intro j hj
+      simp only [List.mem_cons] at hj
+      rcases hj with rfl | hj
+      · omega
+      · exact hmax j (by simpa using hj)
+
+theorem isEmpty_false_ne_nil {α : Type} {l : List α} (h : ¬ l.isEmpty = true) : l ≠ [] := by
+  intro e; subst e; simp at h
+
+theorem pickEndgame_ne_nil (s : State) (p : Nat) : pickEndgame s p ≠ [] := by
+  unfold pickEndgame
+  simp only []
+  split
+  · simp
+  · rename_i h
+    intro e
+    exact argmins_ne_nil _ _ (isEmpty_false_ne_nil h) (List.map_eq_nil_iff.mp e)
+
+theorem pickStalled_ne_nil (s : State) (p : Nat) : pickStalled s p ≠ [] := by
+  unfold pickStalled
+  simp only []
+  split
+  · simp
+  · rename_i h
+    intro e
+    exact argmins_ne_nil _ _ (isEmpty_false_ne_nil h) (List.map_eq_nil_iff.mp e)
+
+theorem pickRarest_ne_nil (s : State) (p : Nat) : pickRarest s p ≠ [] := by
+  unfold pickRarest
+  simp only []
+  split
+  · simp
+  · rename_i h
+    intro e
+    exact argmins_ne_nil _ _ (isEmpty_false_ne_nil h) (List.map_eq_nil_iff.mp e)
+
+theorem findPiece_ne_nil (legacy : Bool) (s : State) (p : Nat) : findPiece legacy s p ≠ [] := by
+  unfold findPiece
+  simp only []
+  split
+  · simp
+  · split
+    · split
+      · simp
+      · split
+        · rename_i h
+          intro e
+          have := List.map_eq_nil_iff.mp e
+          rw [this] at h; simp at h
+        · simp
+    · split
+      · simp
+      · split
+        · simp
+        · split
+          · simp
+          · split
+            · intro e
+              exact pickEndgame_ne_nil s p (List.map_eq_nil_iff.mp e)
+            · intro e
+              rw [List.flatMap_eq_nil_iff] at e
+              have hfirst : (if s.sequential = true then [pickSequential s p] else pickRarest s p) ≠ [] := by
+                split
+                · simp
+                · exact pickRarest_ne_nil s p
+              obtain ⟨x, hx⟩ := List.exists_mem_of_ne_nil _ hfirst
+              have := e x hx
+              obtain ⟨s1, r⟩ := x
+              cases r with
+              | some i => simp at this
+              | none =>
+                simp only at this
+                split at this
+                · exact pickEndgame_ne_nil s1 p (List.map_eq_nil_iff.mp this)
+                · exact pickStalled_ne_nil s1 p (List.map_eq_nil_iff.mp this)
+
+theorem findRange_ne_nil (s : State) : findRange s ≠ [] := by
+  unfold findRange
+  simp only []
+  split
+  · unfold webseedSteals
+    simp only []
+    split
+    · simp
+    · rename_i h
+      intro e
+      have hnil := List.map_eq_nil_iff.mp e
+      obtain ⟨x, hx, hmax⟩ := exists_max_measure (fun x : Nat × Dl => x.2.remaining) (downloadingSources s) (isEmpty_false_ne_nil h)
+      have : x ∈ (downloadingSources s).filter fun x => (downloadingSources s).all fun y => decide (y.2.remaining ≤ x.2.remaining) := by
+        rw [List.mem_filter]
+        exact ⟨hx, by simpa [List.all_eq_true] using hmax⟩
+      rw [hnil] at this; cases this
+  · rename_i h
+    split
+    · split <;> simp
+    · intro e
+      have hnil := List.map_eq_nil_iff.mp e
+      obtain ⟨x, hx, hmax⟩ := exists_max_measure (fun g : Nat × Nat => g.2 - g.1) (findGaps s) (isEmpty_false_ne_nil h)
+      have : x ∈ (findGaps s).filter fun g => (findGaps s).all fun h => decide (h.2 - h.1 ≤ g.2 - g.1) := by
+        rw [List.mem_filter]
+        exact ⟨hx, by simpa [List.all_eq_true] using hmax⟩
+      rw [hnil] at this; cases this
+
+/-- **Progress**: every operation has at least one admissible outcome in every state (the model
+never blocks; the "for every outcome" theorems are not vacuous for any operation). -/
+theorem step_ne_nil (legacy : Bool) (s : State) (op : Op) : step legacy s op ≠ [] := by
+  cases op <;> simp only [step]
+  case pick p =>
+    split
+    · intro e
+      have := List.map_eq_nil_iff.mp e
+      unfold pickFor at this
+      exact findPiece_ne_nil legacy s p (List.map_eq_nil_iff.mp this)
+    · simp
+  case pickweb k =>
+    split
+    · intro e
+      have := List.map_eq_nil_iff.mp e
+      unfold pickWebseed at this
+      exact findRange_ne_nil s (List.map_eq_nil_iff.mp this)
+    · simp
+  all_goals (repeat' split) <;> simp
+
 end Rain.Picker
